@@ -215,6 +215,46 @@ fn episode(k: usize, kind: u64, rng: &mut Rng, g: &mut BinGen) -> (Vec<String>, 
             st.push(format!("r{k} = [x{k}, x{k}] __binary_concat__"));
             exp = cat(&yb, &yb);
         }
+        16 => {
+            // a body-less higher-priority receive wins while a lower-priority filter is in flight on a
+            // heap-binary message; the binary is received and dropped afterwards
+            let (x, _) = g.heap(rng);
+            let (y, yb) = g.heap(rng);
+            let s = *rng.pick(&[4u32, 15, 40, 120]);
+            st.push(format!("e{k} = @{{ a = ! [#'int, #'bin {{ =m, w = [{s}, 0] spin, Ok }}], b = ! [#'int, #'bin], 0x00 }}"));
+            st.push(format!("{x} e{k}"));
+            if rng.chance(1, 2) {
+                st.push(format!("w{k} = [{}, 0] spin", *rng.pick(&[5u32, 30, 90])));
+            }
+            st.push(format!("5 e{k}"));
+            st.push(format!("q{k} = !e{k}"));
+            st.push(format!("r{k} = {y}"));
+            exp = yb;
+        }
+        17 => {
+            // an awaited process finishes while a lower-priority filter is in flight on a heap binary
+            let (x, _) = g.heap(rng);
+            let (y, yb) = g.heap(rng);
+            let s = *rng.pick(&[15u32, 40, 120]);
+            let cs = *rng.pick(&[5u32, 30, 90]);
+            st.push(format!("c{k} = @{{ [{cs}, 0] spin }}"));
+            st.push(format!("e{k} = &c{k} @#(@-> 'int) {{ =p, a = ! [p, #'bin {{ =m, w = [{s}, 0] spin, Ok }}], b = ! [#'bin, 50], 0x00 }}"));
+            st.push(format!("{x} e{k}"));
+            st.push(format!("q{k} = !e{k}"));
+            st.push(format!("r{k} = {y}"));
+            exp = yb;
+        }
+        18 => {
+            // a timeout written first elapses while a lower-priority filter is in flight on a heap binary
+            let (x, _) = g.heap(rng);
+            let (y, yb) = g.heap(rng);
+            let s = *rng.pick(&[40u32, 120, 300]);
+            st.push(format!("e{k} = @{{ a = ! [2, #'bin {{ =m, w = [{s}, 0] spin, Ok }}], b = ! [#'bin, 300], 0x00 }}"));
+            st.push(format!("{x} e{k}"));
+            st.push(format!("q{k} = !e{k}"));
+            st.push(format!("r{k} = {y}"));
+            exp = yb;
+        }
         _ => {
             // two filter sources: a message for the higher-priority one can arrive while the
             // lower-priority filter is in flight
@@ -232,7 +272,7 @@ fn episode(k: usize, kind: u64, rng: &mut Rng, g: &mut BinGen) -> (Vec<String>, 
     (st, exp)
 }
 
-pub const NKINDS: u64 = 16;
+pub const NKINDS: u64 = 20;
 
 impl Property for C06 {
     fn id(&self) -> &'static str {
